@@ -18,7 +18,7 @@ package c20
 // (B) exploration: the assembled programs under byte mutations, directed hostile
 // programs and seeded random byte strings run under the oracles that need no
 // program semantics (no panic / fatal error, gas bound, determinism, unchanged state
-// root when the top frame fails, caller balance, wall-clock cap).
+// root when the top frame fails, caller balance, processor-time cap per invocation).
 
 import (
 	"encoding/json"
@@ -90,7 +90,7 @@ func run(c *core.Ctx) {
 		"snippet gas costs are measured on the code under test (only their composition across frames is the model's)",
 		"the call-depth limit (1024) is exercised by directed recursive programs in part B, not by the model replay",
 		"EVM only (WASM is out of scope); precompiles are reached only by part B programs",
-		"termination is measured with a wall-clock cap per program, not decided",
+		"termination is measured with a processor-time cap per invocation with gas <= 10^7, not decided",
 	}
 	o.Explanation = "part A (model checking): every behaviour of the bounded EVMFrames instances is checked by TLC and replayed on the real EVM with all observables compared; part B (exploration): mutated, directed and random programs under the semantics-free invariants - sampled, not exhaustive"
 	o.Trusted = []string{"TLC", "the harness assembler and its calibration tracer", "libs/db MemDB and the trie under state.StateDB"}
@@ -146,7 +146,7 @@ func replayRecord(c *core.Ctx) {
 			c.Violate("A/"+m.obs+"/"+bh.signature(), bh.compact()+": "+m.text, map[string]interface{}{"behaviour": rec.Record.Behaviour, "instantiation": rec.Record.Instantiation, "mismatch": m.text})
 		}
 	case rec.Record.Program != nil:
-		// run in a child: the program may kill the process or exceed the wall-clock cap
+		// run in a child: the program may kill the process or exceed the processor-time cap
 		pl := newPool(c)
 		pl.submit(job{Part: "B", One: rec.Record.Program, N: 1, Deep: 1, Insts: 1}, 5*time.Minute)
 		pl.wait()
@@ -216,16 +216,26 @@ func partA(c *core.Ctx, base string, pl *pool) bool {
 			var fh *os.File
 			var name string
 			n, nfiles := 0, 0
+			insts := c.Pick(1, 2) // instantiations per behaviour (the largest instance gets one, rotating)
+			if cfg == "EVMFramesBig.cfg" {
+				insts = 1
+			}
 			var werr error
 			flush := func() {
 				if fh != nil {
 					fh.Close()
 					fh = nil
 					pl.submit(job{Part: "A", File: name, Lo: ci*1000003 + (nfiles-1)*chunk, Hi: 1 << 30, Idx: ci*1000 + nfiles - 1,
-						Deep: c.Pick(5, 3), Insts: c.Pick(1, 2)}, c.MinutesT(6, 25))
+						Deep: c.Pick(5, 3), Insts: insts}, c.MinutesT(6, 25))
 				}
 			}
-			res := c.TLC(tlc.Options{SpecDir: c.SpecDir("EVMFrames"), Module: "EVMFrames", Config: cfg, Workers: 1,
+			// every exported line is a complete behaviour, so the big instances may use several
+			// TLC workers (lines of different workers interleave, which does not matter)
+			workers := 1
+			if cfg == "EVMFramesBig.cfg" || cfg == "EVMFramesGas.cfg" {
+				workers = 3
+			}
+			res := c.TLC(tlc.Options{SpecDir: c.SpecDir("EVMFrames"), Module: "EVMFrames", Config: cfg, Workers: workers,
 				Timeout: c.MinutesT(4, 18), Files: costsModule,
 				OnLine: func(l string) {
 					if n%chunk == 0 {
@@ -379,7 +389,7 @@ func (p *pool) submit(j job, timeout time.Duration) {
 				cls = "stack-overflow"
 			} else if strings.Contains(crash, "out of memory") || strings.Contains(crash, "cannot allocate") {
 				cls = "out-of-memory"
-			} else if strings.Contains(crash, "wall-clock cap") {
+			} else if strings.Contains(crash, "cpu-time cap") {
 				cls = "timeout"
 			}
 			gen := fmt.Sprint(rec["gen"])
